@@ -57,6 +57,10 @@ struct SimCore
             throw killed{};
         }
 
+        IterStat& st = c.stats[c.cur_iter];
+        if (st.calls == 0) st.first_pos = c.pos;
+        ++st.calls;
+
         CallRec r;
         r.iter = c.cur_iter;
         r.idx = c.cur_call;
@@ -64,6 +68,18 @@ struct SimCore
         r.draws = c.draws;
         r.epos = c.last_epos;
         r.last_raw = c.last_raw;
+
+        if (!c.log_calls)
+        {
+            // volume runs: one scratch record, nothing is kept
+            c.arena.clear();
+            c.bins.clear();
+            c.adds.clear();
+            if (c.calls.empty()) c.calls.push_back(r);
+            else c.calls[0] = r;
+            return c.calls[0];
+        }
+
         c.calls.push_back(r);
         return c.calls.back();
     }
@@ -216,6 +232,22 @@ struct SimCore
             }
         }
 
+        {
+            IterStat& st = c.stats[c.cur_iter];
+            if (f != T())
+            {
+                ++st.nz;
+                if (w_known)
+                {
+                    if (std::isfinite(f * w)) ++st.fin;
+                }
+                else
+                {
+                    st.weights_known = false;
+                }
+            }
+        }
+
         CallRec& rr = c.calls.back();
         rr.f = f;
         rr.asked_weight = (ask && !weight_is_free) || (!weight_is_free && n_add != 0);
@@ -309,8 +341,9 @@ struct MultiMap
 
             for (std::size_t i = 0; i != n; ++i) u[i] = rn[i];
             cmap->coords(static_cast<std::uint32_t>(channel), u, x);
-            if (coords.size() != n) c.note("coordinate-buffer-size");
-            for (std::size_t i = 0; i != n && i != coords.size(); ++i) coords[i] = static_cast<T>(x[i]);
+            if (coords.size() != c.mapd) c.note("coordinate-buffer-size");
+            // the map may produce fewer or more coordinates than it consumes random numbers
+            for (std::size_t i = 0; i != coords.size(); ++i) coords[i] = (i < n) ? static_cast<T>(x[i]) : T(0.5);
 
             CallRec& rr = c.calls.back();
             rr.off_c = static_cast<std::uint32_t>(c.arena.size());
@@ -340,7 +373,11 @@ struct MultiMap
         if (c.sum_c != checksum(coords)) c.note("densities-coordinates-changed");
         if (r.dens_calls != 0 && c.sum_d != checksum(dens)) c.note("densities-buffer-changed");
 
-        for (std::size_t i = 0; i != n; ++i) x[i] = coords[i];
+        // densities at the point the coordinates request produced (recomputed from the random numbers:
+        // the coordinate vector may be shorter than the random number vector)
+        for (std::size_t i = 0; i != n; ++i) u[i] = rn[i];
+        cmap->coords(static_cast<std::uint32_t>(channel < cmap->chan ? channel : 0), u, x);
+        for (std::size_t i = 0; i != n; ++i) x[i] = static_cast<long double>(static_cast<T>(x[i]));
 
         bool const wpoison = (r.poison == POISON_WEIGHT) && !c.zero_instead;
         int const how = static_cast<int>(mix2(c.sum_u, 5) % 3);
@@ -1077,6 +1114,7 @@ public:
         c.rank = rank;
         c.dims = static_cast<std::uint32_t>(p.dims);
         c.chan = static_cast<std::uint32_t>(p.chan);
+        c.mapd = static_cast<std::uint32_t>(p.mapd ? p.mapd : p.dims);
         c.pos = c.draws = c.discards = c.discarded = 0;
         c.counting = true;
         c.genmode = ctl.genmode;
